@@ -658,6 +658,15 @@ def paste_spec(T, c, ty, data, mode, n):
     return "\n".join(lines)
 
 
+def minimal(case, ops) -> str:
+    """the shortest case that reproduces a violation found inside a multi-sequence case
+    (save it as JSON and run ./check C09 --replay <file>)"""
+    import json
+    mc = {k: case[k] for k in ("kind", "text", "cur", "max", "ring")}
+    mc["ops"] = list(ops)
+    return " || minimal replay case: " + json.dumps(mc)
+
+
 def _frame(T, T2, c2):
     """T2 is T with one span removed at position c2: return the span or None"""
     d = len(T) - len(T2)
@@ -687,13 +696,15 @@ def oracle_emacs_seq(case, tr, bad0):
     b = tr[0]
     prev = None          # (cmd, pushed) of the previous op
     origin = None        # text before the first kill of the current run of accumulating kills
+    done = []
     for op, _, a in tr[1:]:
         arg, cmd = op[0], op[1]
         T, c, T2, c2 = b["text"], b["cur"], a["text"], a["cur"]
+        done.append(op)
 
         def bad(site, cond, what):
             bad0(site, cond, f"{what}: before text={T!r} cur={c} ring={b['ring']} op={op} -> "
-                             f"text={T2!r} cur={c2} ring={a['ring']}")
+                             f"text={T2!r} cur={c2} ring={a['ring']}" + minimal(case, done))
 
         if not (0 <= c2 <= len(T2)):
             bad("Buffer", "cursor out of range", "cursor")
@@ -801,13 +812,15 @@ def vi_count(a) -> int:
 
 def oracle_vi_seq(case, tr, bad0):
     maxsize = case["max"]
+    done = []
     for op, b, a in tr[1:]:
         cnt, cmd = op[0], op[1]
         T, c, T2 = b["text"], b["cur"], a["text"]
+        done.append(op)
 
         def bad(site, cond, what):
             bad0(site, cond, f"{what}: before text={T!r} cur={c} ring={b['ring']} regs={b['regs']} op={op} -> "
-                             f"text={T2!r} cur={a['cur']} ring={a['ring']} regs={a['regs']}")
+                             f"text={T2!r} cur={a['cur']} ring={a['ring']} regs={a['regs']}" + minimal(case, done))
 
         if not (0 <= a["cur"] <= len(T2)):
             bad("Buffer", "cursor out of range", "cursor")
